@@ -27,6 +27,7 @@ import Mathlib.GroupTheory.PresentedGroup
 import DSymVerif.Proofs.FundGroupRel
 import DSymVerif.Proofs.FundGroupPair
 import DSymVerif.Proofs.FundGroupPres
+import DSymVerif.Proofs.FundGroupIso
 import DSymVerif.Spec.C09
 
 namespace DSymVerif.C09
@@ -241,28 +242,54 @@ theorem textbook_onto_returned (ds : DSymData) (hs : ValidSym ds) (f : FundGroup
 
 example : ValidSym (DSymData.ofSimple ex2) := ex2_validSym
 
-/-! ## 9. the open obligation (◐): Tietze equivalence with the textbook presentation -/
+/-! ## 9. the returned presentation presents the textbook group (◐ → proved for the model) -/
 
-/-- the group with generators `1..n` and the relator words `rels`
-    (a quotient of `FreeGroup ℕ`: letters `0` and `> n` are killed) -/
-abbrev Presented (n : Nat) (rels : List (List Int)) : Type :=
-  PresentedGroup ({r | ∃ w ∈ rels, r = den w} ∪ {r | ∃ k : ℕ, (k = 0 ∨ n < k) ∧ r = FreeGroup.of k})
+/-- **`presents_orbifold_group`.**  For every valid symbol of dimension ≥ 1 on which the model
+    returns `f`, the returned presentation ⟨1..n | f.relators⟩ (`MGroup f`) is isomorphic to the
+    textbook presentation `TGroup ds` (generators: all chamber facets; relators: pairing,
+    the facets of `spanning_tree(ds)`, and for every chamber and every `i < j` the closed walk
+    around the 2-orbit to the power `v_ij`).  The isomorphism and its inverse are the obvious maps:
 
-/-- the plain-table view of a symbol that the Spec works on -/
-def specG (ds : DSymData) : SpecC02.G :=
-  { size := ds.size, dim := ds.dim, op := fun i d => (ds.op i d).getD 0,
-    v := fun i d => (ds.vAdj i d).getD 0 }
+      `φ : x(d,i) ↦ edge_to_word(d,i)`     and     `ψ : g ↦ x(gen_to_edge g)`.
 
-/-- NOT PROVED (open obligation).  Missing: a Tietze-equivalence argument — that the gluing
-    discipline of `Boundary` (a ridge closes up exactly when the count around it reaches
-    `m·t`) only ever discards facets whose textbook generator is a consequence of the
-    relators, i.e. that `g(d,i) ↦ edge_to_word(d,i)` is an isomorphism and not just the
-    surjection the literal Spec clauses establish.  Decided per input by the Spec through
-    abelianisation, subgroup counts and order. -/
-def presents_orbifold_group_statement : Prop :=
-  ∀ (ds : DSymData) (f : FundGroup), SpecC09.validSymbol (specG ds) = true →
-    fundamentalGroup ds = .ok f →
-    Nonempty (Presented f.nrGenerators f.relators ≃*
-      Presented (SpecC09.textbook (specG ds)).ngens (SpecC09.textbook (specG ds)).rels)
+    Proof (Proofs/FundGroup*.lean): (a) φ kills the textbook relators (pairing: §2 and the mirror
+    relators; tree facets carry no word; 2-orbit words: §5 up to conjugation/inversion/rotation);
+    (b) ψ kills the returned relators and (c) ψ∘φ = id, both from the invariant of the `Boundary`
+    process: a ridge entry `(d,i,j) ↦ (opp, n)` means that the walk from `d` crossing `j,i,j,…`
+    passes `n` chambers through glued non-mirror facets and stops in front of `opp`; the test
+    `good` (`n = m·t`) therefore forces `v = 1` and all other facets of the 2-orbit glued, so the
+    word assigned to the facet is the consequence of the 2-orbit relation (`good_cert`,
+    `einv_item`); (d) φ∘ψ = id from §7.
+
+    `1 ≤ dim` is needed: for a one-chamber "symbol" of dimension 0 the code returns the trivial
+    group while the textbook group is Z/2 (such symbols cannot be constructed: `PartialDSet::new`
+    asserts `dim ≥ 1`). -/
+theorem presents_orbifold_group (ds : DSymData) (hs : ValidSym ds) (hdim : 1 ≤ ds.dim)
+    (f : FundGroup) (h : fundamentalGroup ds = .ok f) :
+    ∃ e : TGroup ds ≃* MGroup f,
+      (∀ c a, 1 ≤ c → c ≤ ds.size → a ≤ ds.dim →
+        e (PresentedGroup.mk _ (xg ds c a)) = PresentedGroup.mk _ (den (e2wGet f.edgeToWord (c, a)))) ∧
+      (∀ p ∈ f.genToEdge, e.symm (PresentedGroup.of p.1) = PresentedGroup.mk _ (xg ds p.2.1 p.2.2)) := by
+  refine ⟨presIso hs hdim h, ?_, ?_⟩
+  · intro c a h1 h2 h3
+    rw [presIso_apply, phi_xg, valM_of_facet ⟨h1, h2, h3⟩]
+    rfl
+  · intro p hp
+    rw [presIso_symm_apply]
+    unfold psi
+    rw [PresentedGroup.toGroup.of, psi0_mem h p hp]
+    rfl
+
+example : ValidSym (DSymData.ofSimple ex2) ∧ 1 ≤ (DSymData.ofSimple ex2).dim :=
+  ⟨ex2_validSym, by decide⟩
+
+/-- the two groups are isomorphic (the statement of the property) -/
+theorem returned_group_is_textbook_group (ds : DSymData) (hs : ValidSym ds) (hdim : 1 ≤ ds.dim) :
+    ∃ f, fundamentalGroup ds = .ok f ∧ Nonempty (MGroup f ≃* TGroup ds) := by
+  obtain ⟨f, hf⟩ := fundamentalGroup_ok hs
+  exact ⟨f, hf, ⟨(presIso hs hdim hf).symm⟩⟩
+
+example : ValidSym (DSymData.ofSimple ex2) ∧ 1 ≤ (DSymData.ofSimple ex2).dim :=
+  ⟨ex2_validSym, by decide⟩
 
 end DSymVerif.C09
